@@ -491,6 +491,9 @@ func frontMonitor(c frcase, o frobs) []core.Violation {
 	if o.AfterSentinel > 0 {
 		bad("invented", fmt.Sprintf("%d messages came out after the end marker", o.AfterSentinel))
 	}
+	if len(vs) > 0 {
+		return vs // the sequence comparison below would only repeat what is already reported
+	}
 	// initial segment of the expected stream ...
 	for i := range got {
 		if i >= len(want) || got[i] != want[i] {
